@@ -598,6 +598,72 @@ fn c01_one(b: &mut Batch, forms: &mut BTreeMap<String, u64>, src: u64, jit: u64,
     }
 }
 
+// ===================================================================================== C11 (arm64 reach check, simulation part)
+/// C11 on the arm64 back end: for every trampoline displacement the allocator may hand over (it accepts
+/// +-128 MiB inclusive) and beyond, the install either writes a branch that reaches the trampoline or
+/// panics having left the function untouched.
+fn run_c11sim(ctx: &Ctx) {
+    let mut idx = 0u64;
+    let mut total = 0u64;
+    for (name, centre) in [("arm64/around-minus-128MiB", -(1i64 << 27)), ("arm64/around-plus-128MiB", 1i64 << 27), ("arm64/far-outside", 0i64)] {
+        if ctx.mine(idx) {
+            let class = format!("{}/{}/{}", name, if MACOS { "macos" } else { "linux" }, if cfg!(debug_assertions) { "dev" } else { "release" });
+            out::intent(idx, &class, &J::new().s("crash_sig", name));
+            let mut b = Batch::new();
+            let mut rng = Rng::new(ctx.seed ^ rng::hash64(idx ^ 0xC11));
+            let mut one = |b: &mut Batch, src: u64, d: i64, rng: &mut Rng| {
+                b.evals += 1;
+                let jit = (src as i64 + d) as u64;
+                let fake = user_addr(rng);
+                match install(Arch::Arm64, src, jit, fake, None, rng.next()) {
+                    Err(_) => {
+                        b.refused += 1;
+                        if log().iter().any(|e| matches!(e, Ev::Patch { .. })) {
+                            b.fail("failed-install-left-target-modified", J::new().x("entry", src as usize).n("displacement", d));
+                        }
+                    }
+                    Ok(()) => {
+                        let w = a64::walk(src, jit, &|a| rd32(a), &|a| rd64(a), &|a| written_here(a));
+                        let reached = matches!(w.end, a64::End::Arrived(x) if x == jit) || w.path.iter().any(|(a, _, _)| *a == jit);
+                        if !reached {
+                            b.fail("entry-branch-does-not-reach-the-trampoline-it-was-given", J::new().x("entry", src as usize).x("trampoline", jit as usize).n("displacement", d).s("entry_word", &format!("{:08x}", rd32(src))));
+                        }
+                    }
+                }
+            };
+            if centre != 0 {
+                for k in -4096i64..=4096 {
+                    let src = 0x0000_0040_0000_0000u64 + (rng.below(1 << 16) << 2);
+                    one(&mut b, src, centre + 4 * k, &mut rng);
+                }
+                // page-aligned functions with the page-granular placements the allocator really produces
+                for pg in -4i64..=4 {
+                    let src = 0x0000_0040_0000_0000u64 + (rng.below(1 << 16) << 12);
+                    one(&mut b, src, centre + pg * 4096, &mut rng);
+                }
+            } else {
+                for _ in 0..20_000 {
+                    let mag = (1i64 << 27) + rng.range(0, (1i64 << 32) - (1i64 << 27));
+                    let d = (if rng.chance(1, 2) { mag } else { -mag }) & !3;
+                    let src = 0x0000_0040_0000_0000u64 + (rng.below(1 << 30) << 2);
+                    if MACOS {
+                        let pd = (((src as i64 + d) as u64) >> 12) as i128 - (src >> 12) as i128;
+                        if pd < -(1 << 20) || pd >= (1 << 20) {
+                            continue;
+                        }
+                    }
+                    one(&mut b, src, d, &mut rng);
+                }
+            }
+            total += b.evals;
+            let d = J::new().n("evaluations", b.evals).n("refused", b.refused);
+            b.emit(idx, &class, d);
+        }
+        idx += 1;
+    }
+    out::summary(&J::new().n("evaluations_total", total).b("release", !cfg!(debug_assertions)).b("macos_variant", MACOS));
+}
+
 // ===================================================================================== C02 (bookkeeping part, all back ends)
 /// The save/restore bookkeeping of every back end: the guard must restore exactly the range that was
 /// overwritten, at the address that was overwritten, with the bytes that were there before.
@@ -662,7 +728,7 @@ fn run_c01sim(ctx: &Ctx) {
     let two31: i64 = 1 << 31;
     let edge: Vec<i64> = vec![two31 - 1, two31 - 2, two31, two31 + 1, two31 + 2, -two31, -two31 + 1, -two31 - 1, -two31 - 2, 0, 1, -1, 5, -5, 4096, -4096, (1i64 << 32) - 1, 1i64 << 32, 1i64 << 40, -(1i64 << 40), 1i64 << 46, -(1i64 << 46)];
     let nrand = if ctx.n > 0 { ctx.n } else if ctx.thorough { 3_000_000 } else { 200_000 };
-    let names = ["edge-grid", "random-near", "random-far", "boolean", "full-64-bit"];
+    let names = ["edge-grid", "random-near", "random-far", "boolean", "full-64-bit", "absolute-address-classes"];
     for (idx, name) in names.iter().enumerate() {
         let idx = idx as u64;
         if !ctx.mine(idx) {
@@ -706,6 +772,27 @@ fn run_c01sim(ctx: &Ctx) {
                     // trampolines beyond +-2 GiB: the Windows-style 12-byte entry
                     let jit = (rng.next() & 0x0000_7FFF_FFFF_F000) | 0x100000;
                     let fake = (rng.next() & 0x0000_7FFF_FFFF_FFFF) | 0x20;
+                    if (jit as i128 - src as i128).abs() < 4096 || (fake as i128 - jit as i128).abs() < 4096 || (fake as i128 - src as i128).abs() < 4096 {
+                        continue;
+                    }
+                    c01_one(&mut b, &mut forms, src, jit, fake, None, rng.next());
+                }
+            }
+            "absolute-address-classes" => {
+                // entry, trampoline and fake each drawn from the classes < 2^31, [2^31, 2^32), [2^32, 2^33), high
+                let cls = |rng: &mut Rng, c: u64| -> u64 {
+                    match c {
+                        0 => 0x10000 + rng.below(0x7FF0_0000),
+                        1 => 0x8000_0000 + rng.below(0x7FFF_0000),
+                        2 => 0x1_0000_0000 + rng.below(0xFFFF_0000),
+                        _ => 0x10_0000_0000 + (rng.next() & 0x7FFF_FFFF_FFFF),
+                    }
+                };
+                for _ in 0..nrand / 4 {
+                    let (c1, c2, c3) = (rng.below(4), rng.below(4), rng.below(4));
+                    let src = cls(&mut rng, c1);
+                    let jit = cls(&mut rng, c2) & !0xFFF;
+                    let fake = cls(&mut rng, c3);
                     if (jit as i128 - src as i128).abs() < 4096 || (fake as i128 - jit as i128).abs() < 4096 || (fake as i128 - src as i128).abs() < 4096 {
                         continue;
                     }
@@ -798,6 +885,7 @@ fn main() {
         "c16" => run_c16(&ctx),
         "c01sim" => run_c01sim(&ctx),
         "c02sim" => run_c02sim(&ctx),
+        "c11sim" => run_c11sim(&ctx),
         other => {
             eprintln!("HARNESS-ERROR unknown scenario {other}");
             std::process::exit(2);
